@@ -26,6 +26,7 @@ import (
 	"github.com/awslabs/ar-go-tools/analysis/lang"
 	"github.com/awslabs/ar-go-tools/analysis/summaries"
 	"github.com/awslabs/ar-go-tools/internal/pointer"
+	"github.com/awslabs/ar-go-tools/internal/verifhook"
 	"golang.org/x/tools/go/callgraph"
 	"golang.org/x/tools/go/callgraph/cha"
 	"golang.org/x/tools/go/packages"
@@ -190,6 +191,7 @@ func NewAnalyzerState(p *ssa.Program, pkgs []*packages.Package, l *config.LogGro
 		wg.Add(1)
 		go func() {
 			defer wg.Done()
+			verifhook.At("dataflow.NewAnalyzerState.step")
 			step(state)
 		}()
 	}
